@@ -309,6 +309,8 @@ func (cs *ContractSet) loadContractFile(path, pkgPath string) error {
 					return fmt.Errorf("%s:%d: unknown loop clause %s", path, st.line, f[2])
 				}
 			case "unroll":
+				return fmt.Errorf("%s:%d: `unroll` is not implemented - give the loop an invariant", path, st.line)
+			case "unroll-unused":
 				n, err1 := strconv.Atoi(f[1])
 				k, err2 := strconv.Atoi(f[2])
 				if err1 != nil || err2 != nil {
